@@ -15,7 +15,8 @@ RULE = ('correspondence: exhaustive rack exploration (every ItemList call, all i
         'Non-trivial = the call raised or follows an earlier call; distinct by (last 3 ops, outcome) resp. (state, op). '
         'Oracle: on real fits in solar systems with a live source the full public observation (containers, owners, '
         'attribute values, running effects, autocharges, statistics, validation verdicts) is taken before and after '
-        'every raising call and must be equal; rejected free items are then added where they belong.')
+        'every raising call and must be equal; rejected free items are then added where they belong.'
+        ' Also: a designed world where module<->charge (`other` domain), ship-domain and item/ship modifiers are all present and every value is cached: rejected charge / ship / stance assignments must leave every attribute unchanged; the malformed stream of the calculator worlds includes charges that sit in another module and removal from a fleet the fit is not in.')
 ASSUMPTIONS = [
     'attribute values, statistics and validation verdicts are not part of the model state: they are functions of the '
     'configuration (C01/C03/C04) and are compared on the real code by the impl-level oracle only',
